@@ -172,7 +172,7 @@ def work(item):
                 continue
             values = list(values)
             nv = len(values)
-            step = 4 if item[1][0] in ("d1", "objcore") else (7 if _TIER[0] == "thorough" else 11)
+            step = 4 if item[1][0] in ("d1", "objcore") else (7 if _TIER[0] == "thorough" else 16)
             explore_tree(st, json.dumps(schema, sort_keys=True), f, values, list(range(0, nv, step)))
             if st.c["states"] % 1499 == 1:
                 st.sample({"schema": schema, "calls": len(values)})
